@@ -31,6 +31,9 @@ struct Conn {
     /// Kept alive for the whole case, like `push_tx` in `control_socket::handle`.
     tx: mpsc::Sender<String>,
     rx: Option<mpsc::Receiver<String>>,
+    /// a receiver closed with `Receiver::close()` and kept (op `shut`): the channel is closed for senders, its
+    /// backlog stays queued (no permit is returned) until the case ends
+    shut_rx: Option<mpsc::Receiver<String>>,
     nsubs: usize,
 }
 
@@ -377,6 +380,35 @@ impl Component for HubC {
             ops.push("len".into());
             return ops;
         }
+        // Closed with a backlog: a subscriber whose queue is EXACTLY full closes its receiver with `Receiver::close()`
+        // (`shut`: nothing drained, no permit returned) - the next publish on its topic must prune it all the same,
+        // and must keep serving the live subscriber next to it.
+        if idx % 20 == 3 {
+            let topic = Self::gen_topic(rng);
+            let cap = rng.range(1, 4);
+            ops.push(format!("conn {cap}"));
+            ops.push(format!("conn {}", rng.range(1, 4)));
+            ops.push(format!("sub 0 {topic}"));
+            ops.push(format!("sub 1 {topic}"));
+            // fill conn 0 exactly (sometimes one short, sometimes over: the rest is dropped as Full)
+            let fill = match rng.below(4) { 0 => cap.saturating_sub(1), 1 => cap + 1, _ => cap };
+            for k in 0..fill {
+                ops.push(format!("pub {topic} {k}"));
+                ops.push("recv 1".into());
+            }
+            ops.push("shut 0".into());
+            ops.push("len".into());
+            ops.push(format!("pub {topic} 100"));
+            ops.push("len".into());
+            ops.push("recv 1".into());
+            ops.push(format!("pub {topic} 101"));
+            ops.push("recv 1".into());
+            ops.push("shut 0".into());
+            ops.push("close 1".into());
+            ops.push(format!("pub {topic} 102"));
+            ops.push("len".into());
+            return ops;
+        }
         // Forced task switch at each await point of the real `publish` in turn (budget sweep 120..=131, plus the
         // second-poll values 248..=257): a closed subscriber's own unsubscribe (its connection's teardown) runs
         // between the fan-out and the prune, before the first lock, or after the call; afterwards the hub
@@ -507,7 +539,8 @@ impl Component for HubC {
                     if !with_subs.is_empty() && rng.chance(2, 3) {
                         c = *rng.pick(&with_subs);
                     }
-                    ops.push(format!("close {c}"));
+                    // one close in three keeps the receiver (`Receiver::close()`): closed with its backlog queued
+                    ops.push(if rng.chance(1, 3) { format!("shut {c}") } else { format!("close {c}") });
                     closed.push(c);
                 }
                 85..=91 => ops.push("len".into()),
@@ -585,7 +618,7 @@ impl Component for HubC {
                     return "bad-op".into();
                 }
                 let (tx, rx) = mpsc::channel::<String>(cap);
-                self.conns.push(Conn { tx, rx: Some(rx), nsubs: 0 });
+                self.conns.push(Conn { tx, rx: Some(rx), shut_rx: None, nsubs: 0 });
                 format!("conn={}", self.conns.len() - 1)
             }
             ["sub", c, topic] => {
@@ -756,6 +789,24 @@ impl Component for HubC {
                     Some(rx) => {
                         drop(rx);
                         mon.count("close");
+                        "ok".into()
+                    }
+                    None => "gone".into(),
+                }
+            }
+            ["shut", c] => {
+                let Ok(c) = c.parse::<usize>() else { return "bad-op".into() };
+                if c >= self.conns.len() {
+                    return "bad-op".into();
+                }
+                match self.conns[c].rx.take() {
+                    Some(mut rx) => {
+                        rx.close();
+                        if self.conns[c].tx.capacity() == 0 {
+                            mon.count("shut-while-full");
+                        }
+                        self.conns[c].shut_rx = Some(rx);
+                        mon.count("shut");
                         "ok".into()
                     }
                     None => "gone".into(),
